@@ -81,7 +81,9 @@ func (p *realPop) judgeSelect(sel int, args []string, gotId string, rest []strin
 	if len(args) > 0 {
 		exp = matching(p.Bugs, args[0])
 	}
-	same := func(a, b []string) bool { return strings.Join(a, "\x00") == strings.Join(b, "\x00") && len(a) == len(b) }
+	same := func(a, b []string) bool {
+		return strings.Join(a, "\x00") == strings.Join(b, "\x00") && len(a) == len(b)
+	}
 	switch {
 	case len(exp) > 1:
 		if err == nil {
